@@ -67,3 +67,14 @@ Definition chk_prove (bits cap T : nat) (values : list N) (promises : list (opti
                     | None => false
                     end) 16 in
   (c1 + c2 + c4 + c8 + c16)%N.
+
+(** the prover's guard (Model/Prover.v [witness_valid]: opening count, extension degree, value capacity,
+    re-commitment, promise <= value) at the concrete instance: the statement's commitments are built from
+    the statement's openings, the witness may differ.  Result code 32 = the model's verdict differs from
+    the implementation's prove Ok/Err. *)
+Definition chk_guard (bits cap T : nat) (svals : list N) (sbl : list (list (list int))) (promises : list (option N))
+    (wvals : list N) (wbl : list (list (list int))) (obs_ok : bool) : N :=
+  let g := fm_gens bits cap T in
+  let commitments := map (fun vr => commit Kl Vl g (k_of_N (fst vr)) (map k_of_limbs (snd vr))) (combine svals sbl) in
+  let wT := match wbl with [] => O | r :: _ => length r end in
+  pflag (Bool.eqb (witness_valid Kl Vl bits T k_of_N g commitments promises wvals (map (map k_of_limbs) wbl) wT) obs_ok) 32.
